@@ -73,7 +73,7 @@ EXHAUSTIVE_SCOPE = (
     'ContiguousBlockAllocator(size, pos, off) for size 1..5, off in {0, size, '
     '2*size+3}: every history over {alloc(n) n=1..size-pos, free(a) for each '
     'partition address a} with all internal tie-breaks; depth by size '
-    '(pos=0): quick {1:6, 2:6, 3:5, 4:5, 5:4}, thorough {1:10, 2:9, 3:8, '
+    '(pos=0): quick {1:6, 2:7, 3:5, 4:5, 5:4}, thorough {1:10, 2:9, 3:8, '
     '4:6, 5:6}; pos=1 for size 2..5 with depth one less; free(None) and '
     'oversize alloc only as end-of-history probes')
 
@@ -578,7 +578,7 @@ def alloc_strategy(draw):
 
 # --- bounded exhaustive ------------------------------------------------------------
 
-DEPTH_QUICK = {1: 6, 2: 6, 3: 5, 4: 5, 5: 4}
+DEPTH_QUICK = {1: 6, 2: 7, 3: 5, 4: 5, 5: 4}
 DEPTH_THOROUGH = {1: 10, 2: 9, 3: 8, 4: 6, 5: 6}
 
 
@@ -842,11 +842,11 @@ def classify_known(stage_name, case, viol):
 def stages(ctx):
     return [
         Stage('alloc', run_alloc, alloc_strategy(),
-              quick=2500, thorough=20000),
+              quick=3000, thorough=20000),
         Stage('alloc_enum', run_alloc_all_ties, cases=enum_cases,
               exhaustive=True),
         Stage('public', run_public, public_strategy(),
-              quick=1200, thorough=10000),
+              quick=1500, thorough=10000),
         Stage('nodeid', run_nodeid, nodeid_strategy(),
               quick=300, thorough=3000),
     ]
